@@ -12,10 +12,14 @@ import (
 	coapNet "github.com/plgd-dev/go-coap/v3/net"
 	"github.com/plgd-dev/go-coap/v3/net/responsewriter"
 	"github.com/plgd-dev/go-coap/v3/options"
+	"github.com/plgd-dev/go-coap/v3/tcp"
+	tcpclient "github.com/plgd-dev/go-coap/v3/tcp/client"
+	tcpserver "github.com/plgd-dev/go-coap/v3/tcp/server"
 	"github.com/plgd-dev/go-coap/v3/udp"
 	udpclient "github.com/plgd-dev/go-coap/v3/udp/client"
 	udpserver "github.com/plgd-dev/go-coap/v3/udp/server"
 
+	"verifharness/internal/conns"
 	"verifharness/internal/hooks"
 	"verifharness/internal/memnet"
 	"verifharness/internal/rec"
@@ -37,11 +41,11 @@ func runUDPServer(st Stim) Trace {
 		tickMu.Unlock()
 	}
 	var ccMu sync.Mutex
-	var conns []*udpclient.Conn
+	var uconns []*udpclient.Conn
 	opts := []udpserver.Option{
 		options.WithPeriodicRunner(runner),
 		options.WithErrors(func(error) {}),
-		options.WithOnNewConn(func(cc *udpclient.Conn) { ccMu.Lock(); conns = append(conns, cc); ccMu.Unlock() }),
+		options.WithOnNewConn(func(cc *udpclient.Conn) { ccMu.Lock(); uconns = append(uconns, cc); ccMu.Unlock() }),
 		options.WithHandlerFunc(func(w *responsewriter.ResponseWriter[*udpclient.Conn], r *pool.Message) {}),
 	}
 	if st.KeepAlive {
@@ -96,10 +100,10 @@ func runUDPServer(st Stim) Trace {
 	first := func() *udpclient.Conn {
 		ccMu.Lock()
 		defer ccMu.Unlock()
-		if len(conns) == 0 {
+		if len(uconns) == 0 {
 			return nil
 		}
-		return conns[0]
+		return uconns[0]
 	}
 	mid := int32(5000)
 	bar := int32(0x6000)
@@ -182,5 +186,179 @@ func runUDPServer(st Stim) Trace {
 		tr.Obs = append(tr.Obs, Obs{Closed: closed, Pings: npings()})
 	}
 	tr.Closes = int(closes.Load())
+	return tr
+}
+
+// runTCPServer: the same history against a REAL tcp server on a loopback socket (options.WithInactivityMonitor /
+// WithKeepAlive, driver-driven housekeeping tick). Peer A (a raw stream) follows the history; a second peer B is
+// connected all the time and answers every ping at once: what the monitor does to A must not depend on B.
+func runTCPServer(st Stim) Trace {
+	tr := Trace{Mode: "tcpsrv", T: st.T, P: st.P, KeepAlive: st.KeepAlive, MaxRetries: st.MaxRetries, Events: st.Events, Obs: []Obs{}}
+	vnow.Store(0)
+	var closesA atomic.Int64
+	var ccMu sync.Mutex
+	var conns_ []*tcpclient.Conn
+	onInactive := func(cc *tcpclient.Conn) {
+		ccMu.Lock()
+		isA := len(conns_) > 0 && conns_[0] == cc
+		ccMu.Unlock()
+		if isA {
+			closesA.Add(1)
+		}
+		_ = cc.Close()
+	}
+	var tickMu sync.Mutex
+	var ticks []func(time.Time) bool
+	runner := func(f func(now time.Time) bool) {
+		tickMu.Lock()
+		ticks = append(ticks, f)
+		tickMu.Unlock()
+	}
+	opts := []tcpserver.Option{
+		options.WithPeriodicRunner(runner),
+		options.WithErrors(func(error) {}),
+		options.WithOnNewConn(func(cc *tcpclient.Conn) { ccMu.Lock(); conns_ = append(conns_, cc); ccMu.Unlock() }),
+		options.WithHandlerFunc(func(w *responsewriter.ResponseWriter[*tcpclient.Conn], r *pool.Message) {}),
+	}
+	if st.KeepAlive {
+		opts = append(opts, options.WithKeepAlive(uint32(st.MaxRetries), time.Duration(st.P*(st.MaxRetries+1))*time.Second, onInactive))
+	} else {
+		opts = append(opts, options.WithInactivityMonitor(time.Duration(st.P)*time.Second, onInactive))
+	}
+	l, err := coapNet.NewTCPListener("tcp4", "127.0.0.1:0")
+	if err != nil {
+		rec.Die("listen: %v", err)
+	}
+	sv := tcp.NewServer(opts...)
+	go func() { _ = sv.Serve(l) }()
+	defer func() { sv.Stop(); _ = l.Close() }()
+	nconns := func() int { ccMu.Lock(); defer ccMu.Unlock(); return len(conns_) }
+	type peer struct {
+		c     net.Conn
+		mu    sync.Mutex
+		pings [][]byte        // tokens of the Ping signals received, in order
+		pongs map[string]bool // tokens of the Pong signals received
+	}
+	dial := func(auto bool, want int) *peer {
+		c, err := net.DialTimeout("tcp4", l.Addr().String(), time.Second)
+		if err != nil {
+			rec.Die("dial: %v", err)
+		}
+		p := &peer{c: c, pongs: map[string]bool{}}
+		go func() {
+			var buf []byte
+			tmp := make([]byte, 4096)
+			for {
+				n, err := c.Read(tmp)
+				if err != nil {
+					return
+				}
+				buf = append(buf, tmp[:n]...)
+				fs, rest := conns.Frames(buf)
+				buf = append([]byte(nil), rest...)
+				for _, f := range fs {
+					switch f.Code {
+					case int(codes.Ping):
+						p.mu.Lock()
+						p.pings = append(p.pings, append([]byte(nil), f.Token...))
+						p.mu.Unlock()
+						if auto {
+							_, _ = c.Write(conns.Frame(int(codes.Pong), f.Token, nil, nil))
+						}
+					case int(codes.Pong):
+						p.mu.Lock()
+						p.pongs[string(f.Token)] = true
+						p.mu.Unlock()
+					}
+				}
+			}
+		}()
+		_, _ = c.Write(conns.Frame(int(codes.CSM), []byte{1}, nil, nil))
+		hooks.WaitFor(time.Second, func() bool { return nconns() >= want })
+		return p
+	}
+	A := dial(false, 1)
+	defer A.c.Close()
+	B := dial(true, 2)
+	defer B.c.Close()
+	ccMu.Lock()
+	var ccA *tcpclient.Conn
+	if len(conns_) > 0 {
+		ccA = conns_[0]
+	}
+	ccMu.Unlock()
+	if ccA == nil {
+		rec.Die("c18 tcpsrv: the server created no connection")
+	}
+	bar := 0
+	// send on A, then a barrier Ping; its Pong means the server has processed what was sent before it
+	send := func(raw []byte) {
+		if raw != nil {
+			_, _ = A.c.Write(raw)
+		}
+		bar++
+		tok := []byte{0xBA, byte(bar >> 8), byte(bar)}
+		_, _ = A.c.Write(conns.Frame(int(codes.Ping), tok, nil, nil))
+		hooks.WaitFor(500*time.Millisecond, func() bool { A.mu.Lock(); defer A.mu.Unlock(); return A.pongs[string(tok)] })
+		hooks.Quiesce(ccA, 500*time.Millisecond)
+	}
+	npings := func() int { A.mu.Lock(); defer A.mu.Unlock(); return len(A.pings) }
+	send(nil) // both connections exist and are active at virtual time 0
+	n := 0
+	wasClosed := false
+	for _, e := range st.Events {
+		if wasClosed {
+			tr.Obs = append(tr.Obs, Obs{Closed: true, Pings: npings()})
+			continue
+		}
+		vnow.Store(int64(e.T))
+		switch e.E {
+		case "recv":
+			n++
+			tok := []byte{0x7A, byte(n)}
+			switch e.G {
+			case 1:
+				send(conns.Frame(int(codes.POST), tok, message.Options{{ID: message.URIPath, Value: []byte("x")}}, []byte("p")))
+			case 2:
+				send(nil) // the peer's ping (the barrier itself)
+			case 3:
+				send(conns.Frame(int(codes.Pong), tok, nil, nil))
+			case 4:
+				send(conns.Frame(int(codes.CSM), tok, nil, nil))
+			case 5:
+				send(conns.Frame(int(codes.Content), tok, nil, []byte("r")))
+			default:
+				send(conns.Frame(int(codes.GET), tok, message.Options{{ID: message.URIPath, Value: []byte("x")}}, nil))
+			}
+		case "pong":
+			A.mu.Lock()
+			var tok []byte
+			if e.G >= 1 && e.G <= len(A.pings) {
+				tok = A.pings[e.G-1]
+			}
+			A.mu.Unlock()
+			if tok != nil {
+				send(conns.Frame(int(codes.Pong), tok, nil, nil))
+			}
+		case "tick":
+			tickMu.Lock()
+			fs := append([]func(time.Time) bool(nil), ticks...)
+			tickMu.Unlock()
+			for _, f := range fs {
+				f(clock())
+			}
+			time.Sleep(300 * time.Microsecond)
+		}
+		closed := false
+		if closesA.Load() > 0 {
+			hooks.WaitFor(time.Second, func() bool { return ccA.Context().Err() != nil })
+		}
+		if ccA.Context().Err() != nil {
+			closed = true
+		}
+		wasClosed = closed
+		tr.Obs = append(tr.Obs, Obs{Closed: closed, Pings: npings()})
+	}
+	tr.Closes = int(closesA.Load())
 	return tr
 }
